@@ -56,7 +56,7 @@ fn default_runs(prop: &str, tier: &str) -> u64 {
         }
         "C11" => {
             if quick {
-                150_000
+                100_000
             } else {
                 10_000_000
             }
